@@ -1,0 +1,11 @@
+//go:build verif
+
+package header
+
+// Verification hooks (build tag verif): read-only access to unexported parsing helpers.
+
+// VerifOctetType returns the RFC 2616 class flags of an octet (isToken = 1, isSpace = 2).
+func VerifOctetType(c byte) byte { return byte(octetTypes[c]) }
+
+// VerifExpectQuality exposes expectQuality.
+func VerifExpectQuality(s string) (float64, string) { return expectQuality(s) }
